@@ -425,7 +425,11 @@ int explicit_lookup(Task* t, uint64_t off) {
     int c = cmp_pos(h.op, h.off, t->cur_op, off);
     if (c < 0) { g.exp_head++; continue; }  // a point we have passed (minimised away)
     if (c > 0) return -1;
-    if (h.forced == 6) return -1;  // taken by after_acquire(), once the lock is held
+    if (h.forced == 6 || h.forced == 7) return -1;  // taken by explicit_post(), after the event (lock held / yield hand-off)
+    // recorded because the task BLOCKED in (or finished with) this event: the event has to take
+    // effect first (a condition wait must release its mutex before the task is switched out);
+    // pick_forced() consumes the entry when the task blocks again
+    if (h.forced == 1 || h.forced == 2) return -1;
     g.exp_head++;
     if (h.to >= 0 && h.to < g.ntasks && h.to != t->id && g.tasks[h.to].state == T_RUN) return h.to;
     return -1;
@@ -636,21 +640,25 @@ void yield_point(Task* t, int kind, unsigned size, uint32_t pc) {
 
 // lock-order search: right after a task has acquired a lock, let every other task run up to its
 // own next acquisition; two tasks taking two locks in opposite orders then meet with certainty
+// replay of a recorded hand-off that was taken AFTER the event at the same position took effect
+// (cause 6: lock obtained; cause 7: sched_yield / sleep): same position as the event's yield point
+void explicit_post(Task* t, int cause) {
+  while (g.exp_head < g.cfg.n_explicit) {
+    const Switch& h = g.cfg.explicit_sw[g.exp_head];
+    if (h.task != t->id || h.forced != cause) return;
+    int c = cmp_pos(h.op, h.off, t->cur_op, t->local_events - t->op_start);
+    if (c > 0) return;
+    g.exp_head++;
+    if (c < 0) continue;
+    if (h.to >= 0 && h.to < g.ntasks && h.to != t->id && g.tasks[h.to].state == T_RUN) do_switch(t, h.to, cause);
+    return;
+  }
+}
+
 void after_acquire(Task* t) {
   if (g.fair || g.ntasks < 2) return;
   if (g.cfg.strategy == S_EXPLICIT) {
-    // replay of a recorded post-acquisition hand-off (cause 6): same position as the lock event's
-    // yield point, but taken after the lock was obtained
-    while (g.exp_head < g.cfg.n_explicit) {
-      const Switch& h = g.cfg.explicit_sw[g.exp_head];
-      if (h.task != t->id || h.forced != 6) return;
-      int c = cmp_pos(h.op, h.off, t->cur_op, t->local_events - t->op_start);
-      if (c > 0) return;
-      g.exp_head++;
-      if (c < 0) continue;
-      if (h.to >= 0 && h.to < g.ntasks && h.to != t->id && g.tasks[h.to].state == T_RUN) do_switch(t, h.to, 6);
-      return;
-    }
+    explicit_post(t, 6);
     return;
   }
   if (g.cfg.strategy != S_LOCKSTEP) return;
@@ -1953,7 +1961,9 @@ static int sleep_model(Task* t, uint32_t pc) {
   yield_point(t, EV_CLOCK, 1, pc);
   if (g.cfg.strategy != S_EXPLICIT) {
     int to = next_rr(t->id);
-    if (to >= 0) do_switch(t, to, 5);
+    if (to >= 0) do_switch(t, to, 7);
+  } else {
+    explicit_post(t, 7);
   }
   t->in_rt = 0;
   return 0;
@@ -1985,9 +1995,11 @@ int sched_yield(void) {
   // a spinning task must let others run: treat as an immediate hand-off to the next runnable task
   t->in_rt = 1;
   yield_point(t, EV_MUTEX, 3, PC());
-  if (g.cfg.strategy != S_EXPLICIT) {  // in a replay the recorded hand-off is taken at the yield point
+  if (g.cfg.strategy != S_EXPLICIT) {
     int to = next_rr(t->id);
-    if (to >= 0) do_switch(t, to, 5);
+    if (to >= 0) do_switch(t, to, 7);
+  } else {
+    explicit_post(t, 7);  // in a replay: the recorded hand-off, after a possible strategy switch at the same point
   }
   t->in_rt = 0;
   return 0;
